@@ -5,6 +5,8 @@
 //! spec/Registration.tla) and is built here with the PUBLIC item constructors
 //! (`Module::new`, `Type::clone/copy`, `Function::new`, `Constant::new`,
 //! `Impl::new`, `Use::new`); a few fixed shapes are built with `library!`.
+//! A refused add that the case marks `after` is followed by the probes of the items of
+//! the earlier adds (they must be unchanged) and by the next add.
 //! After a successful add the requested probes are compiled as scripts that
 //! call the item / read the constant / pass a value of the type through the
 //! given path; the observed tag is reported.  Nothing is judged here: the
@@ -430,6 +432,62 @@ fn macro_lib(shape: &str) -> Library {
                 const f1: i32 = 200;
             }
         },
+        // Mode "refuse" (RMacroShapes of spec/MCRegistration.tla): a base library, libraries that are refused
+        // because one of their items has the name of an item of the base library, a third library
+        "rbase" => library! {
+            mod ma {
+                fn f1() -> i32 { 100 }
+                const C1: i32 = 200;
+                mod n {
+                    fn f2(a: Val<TA>) -> i32 { 3 * 100 + a.0.tag }
+                    const C5: i32 = 1400;
+                }
+            }
+            #[clone] type T = Val<TA>;
+            fn f3(a: i32) -> i32 { 4 * 100 + a }
+            const C2: i32 = 800;
+            const C3: Val<TA> = Val(TA { tag: 900 });
+            const KU: u32 = 7;
+            impl Val<TA> {
+                fn g1(a: Val<TA>) -> i32 { 6 * 100 + a.0.tag }
+                fn g2() -> i32 { 700 }
+                const C4: i32 = 1200;
+            }
+            use ma::{f1, n::C5};
+        },
+        "rthird" => library! {
+            fn y1(a: i32) -> i32 { 48 * 100 + a }
+            const Y2: i32 = 4900;
+            mod my {
+                const Y3: i32 = 5000;
+            }
+            impl Val<TA> {
+                const Y4: i32 = 5100;
+                fn gy(a: Val<TA>) -> i32 { 52 * 100 + a.0.tag }
+            }
+        },
+        "rconst" => library! {
+            fn x1() -> i32 { 4500 }
+            const X2: i32 = 4600;
+            const C2: i32 = 4000;
+        },
+        "rconstty" => library! {
+            const C2: Val<TA> = Val(TA { tag: 4100 });
+            fn x1() -> i32 { 4500 }
+            const X2: i32 = 4600;
+        },
+        "rassoc" => library! {
+            fn x1() -> i32 { 4500 }
+            impl Val<TA> {
+                const C4: i32 = 4000;
+            }
+            const X2: i32 = 4600;
+        },
+        "rfn" => library! {
+            fn f3() -> i32 { 4200 }
+            fn x1() -> i32 { 4500 }
+            const X2: i32 = 4600;
+        },
         s => panic!("harness: unknown macro shape {s}"),
     }
 }
@@ -835,12 +893,16 @@ fn replay_case(case: &J, prog: &Progress) -> J {
         prog.step(k as i64);
         let mut r = do_add(&mut rt, add, k == 0 && case["from_lib"].as_bool() == Some(true));
         let ok = r["out"] == "ok";
-        if ok {
+        // `after`: the specification says this add is refused and what must still be reachable afterwards
+        // (the items of the earlier adds): the probes run against the runtime that refused the library,
+        // and the case goes on with the next add
+        let refused = r["out"] == "err" && r["stage"] == "add" && add["after"].as_bool() == Some(true);
+        if ok || refused {
             let probes = add["probes"].as_array().cloned().unwrap_or_default();
             r["probes"] = J::Array(run_probes(&rt, &probes, &add["tys"]));
         }
         res.push(r);
-        if !ok {
+        if !ok && !refused {
             break;
         }
     }
@@ -1216,7 +1278,8 @@ fn probe_of(k: &Known, path: &[String]) -> Vec<J> {
     }
 }
 
-/// One recorded run: a fresh runtime, 1..3 adds, probes after every successful add.
+/// One recorded run: a fresh runtime, 1..3 adds, probes after every successful add and - of the items
+/// registered before - after every refused add.
 fn record_case(case: &J, prog: &Progress) -> J {
     let mut rng = Rng(case["seed"].as_u64().unwrap());
     let defect_rate = case["defect_percent"].as_u64().unwrap_or(35);
@@ -1235,19 +1298,26 @@ fn record_case(case: &J, prog: &Progress) -> J {
             ev["panic"] = r.clone();
         }
         events.push(ev);
-        if out != "ok" {
+        if out == "panic" {
             break;
         }
-        w.known.extend(new_known);
-        w.type_path.extend(new_types);
-        for (top, p) in uses {
-            if !top || p.is_empty() {
-                continue;
+        if out == "ok" {
+            w.known.extend(new_known);
+            w.type_path.extend(new_types);
+            for (top, p) in uses {
+                if !top || p.is_empty() {
+                    continue;
+                }
+                if let Some(k) = w.known.iter().find(|k| k.path == p) {
+                    w.aliases.push((p.last().unwrap().clone(), k.clone()));
+                }
             }
-            if let Some(k) = w.known.iter().find(|k| k.path == p) {
-                w.aliases.push((p.last().unwrap().clone(), k.clone()));
-            }
+        } else if w.known.is_empty() {
+            // refused, and nothing was registered before: nothing to look at
+            break;
         }
+        // (after a refused add: the items of the earlier adds are probed again - they must be unchanged -
+        // and the run goes on with the next library)
         // probes: every known item at its declaration path, through the top-level aliases,
         // and at perturbed paths / with perturbed signatures
         let mut batch: Vec<J> = vec![];
